@@ -273,6 +273,7 @@ func runC16(c *core.Ctx) {
 	// ---------------- R16d ingester passes the reader's error through
 	x.checkIngesters()
 	c.Floor("R16d", 1, "failure branch of FormatReader.Read in the built-in ingester")
+	c16NoBenignSentinels(c)
 }
 
 // checkValue: R16a/R16b for one error value that may carry an input failure.
